@@ -297,6 +297,14 @@ def _b_hasattr(interp, args, kw, st, node):
 
 def _b_getattr(interp, args, kw, st, node):
     o, name = args[0], args[1]
+    if name.has_const and len(args) > 2 and o.kind == "obj":
+        has = _b_hasattr(interp, [o, name], {}, st, node)
+        t = interp.truth(has)
+        if t is True:
+            return interp.getattr_v(o, name.const, st, node)
+        if t is False:
+            return args[2]
+        return interp.phi(has.term, interp.getattr_v(o, name.const, st, node), args[2])
     if name.has_const:
         return interp.getattr_v(o, name.const, st, node)
     return V("unk", T("getattr", o.term, name.term), labels=o.labels | name.labels)
@@ -499,13 +507,25 @@ def _b_iter(interp, args, kw, st, node):
     return args[0]
 
 
+def _b_slice(interp, args, kw, st, node):
+    none = vconst(None)
+    if len(args) == 1:
+        lo, hi, step = none, args[0], none
+    else:
+        lo, hi = args[0], args[1]
+        step = args[2] if len(args) > 2 else none
+    if lo.has_const and lo.const == 0:
+        lo = none
+    return V("slice", T("slice", lo.term, hi.term, step.term), items=[lo, hi, step], labels=_L(lo, hi, step))
+
+
 _BUILTINS = {
     "len": _b_len, "range": _b_range, "enumerate": _b_enumerate, "zip": _b_zip, "isinstance": _b_isinstance,
     "hasattr": _b_hasattr, "getattr": _b_getattr, "setattr": _b_setattr, "callable": _b_callable,
     "min": _minmax("min"), "max": _minmax("max"), "sum": _b_sum, "abs": _b_abs, "int": _b_int, "float": _b_float,
     "bool": _b_bool, "list": _b_list, "tuple": _b_tuple, "dict": _b_dict, "sorted": _b_sorted, "all": _b_all("all"),
     "any": _b_all("any"), "next": _b_next, "print": _b_print, "type": _b_type, "str": _b_str, "repr": _b_str,
-    "round": _b_round, "reversed": _b_reversed, "iter": _b_iter, "set": _b_list,
+    "round": _b_round, "reversed": _b_reversed, "iter": _b_iter, "set": _b_list, "slice": _b_slice,
 }
 
 _EXC = ("ValueError", "TypeError", "NotImplementedError", "ImportError", "IndexError", "KeyError", "RuntimeError", "Exception", "AttributeError", "UserWarning", "DeprecationWarning", "FutureWarning", "RuntimeWarning", "AssertionError", "StopIteration")
